@@ -100,4 +100,29 @@ IsRounded(A, B, R, mode, neg) ==
 \* |R/10^s - A/B| <= 1/2 * 10^-s  <=>  2 |R*B - A*10^s| <= B*10^s ... stated with a common scale:
 \* nearest-within-half: 2 * |R*B - A| <= B
 WithinHalfUnit(A, B, R) == BLe(BTwice(BAbsDiff(BMul(R, B), A)), B)
+
+(***************************************************************************)
+(* Signed rationals over big naturals: [s |-> -1 | 0 | 1, n |-> limbs,      *)
+(* d |-> limbs], d > 0; not normalised - equality and order are decided by  *)
+(* cross-multiplication.                                                    *)
+(***************************************************************************)
+QMk(s, n, d) == [s |-> IF n = <<>> THEN 0 ELSE s, n |-> n, d |-> d]
+QZero == QMk(0, <<>>, BOne)
+QInt(k) == IF k >= 0 THEN QMk(1, BFromNat(k), BOne) ELSE QMk(-1, BFromNat(-k), BOne)
+QRat(k, m) == IF k >= 0 THEN QMk(1, BFromNat(k), BFromNat(m)) ELSE QMk(-1, BFromNat(-k), BFromNat(m))
+QNeg(a) == QMk(-a.s, a.n, a.d)
+QMul(a, b) == QMk(a.s * b.s, BMul(a.n, b.n), BMul(a.d, b.d))
+QInv(a) == QMk(a.s, a.d, a.n)                                   \* a # 0
+QDiv(a, b) == QMul(a, QInv(b))
+QAdd(a, b) ==
+    LET x == BMul(a.n, b.d)  y == BMul(b.n, a.d)  d == BMul(a.d, b.d) IN
+    IF a.s = 0 THEN b ELSE IF b.s = 0 THEN a
+    ELSE IF a.s = b.s THEN QMk(a.s, BAdd(x, y), d)
+    ELSE IF BCmp(x, y) = 0 THEN QMk(0, <<>>, BOne)
+    ELSE IF BCmp(x, y) > 0 THEN QMk(a.s, BSub(x, y), d)
+    ELSE QMk(b.s, BSub(y, x), d)
+QSub(a, b) == QAdd(a, QNeg(b))
+QEqv(a, b) == a.s = b.s /\ BMul(a.n, b.d) = BMul(b.n, a.d)
+QLess(a, b) == QSub(a, b).s = -1
+QLeq(a, b) == QSub(a, b).s <= 0
 =============================================================================
